@@ -143,6 +143,16 @@ type exState struct {
 	decided map[ssa.Value]bool // opaque conditions already decided on this path (the same SSA value is the same runtime value)
 	decExpr map[string]bool    // pureMemo: memory-free conditions decided on this path, by rendering
 	po      pathOutcome
+	frames  []exFrame              // inlined helper calls in progress (innermost last)
+	resume  *exFrame               // set when an inlined helper returned: continue its caller after the call
+	tuples  map[ssa.Value][]symVal // results of inlined multi-result helpers
+}
+
+// exFrame: where to continue in the caller when an inlined helper returns.
+type exFrame struct {
+	b, pred *ssa.BasicBlock
+	idx     int
+	call    ssa.Value
 }
 
 func (st *exState) clone() *exState {
@@ -167,6 +177,17 @@ func (st *exState) clone() *exState {
 	}
 	for k, v := range st.onPath {
 		n.onPath[k] = v
+	}
+	n.frames = append([]exFrame(nil), st.frames...)
+	if st.resume != nil {
+		r := *st.resume
+		n.resume = &r
+	}
+	if st.tuples != nil {
+		n.tuples = map[ssa.Value][]symVal{}
+		for k, v := range st.tuples {
+			n.tuples[k] = v
+		}
 	}
 	n.po = pathOutcome{conds: append([]condTaken(nil), st.po.conds...), calls: append([]callRec(nil), st.po.calls...), stores: append([]storeRec(nil), st.po.stores...), seq: append([]int(nil), st.po.seq...)}
 	return n
@@ -215,7 +236,15 @@ func (e *explorer) walk(st *exState, b, pred *ssa.BasicBlock) {
 		if e.overflow {
 			return
 		}
-		if st.onPath[b] {
+		start := 0
+		resumed := false
+		if st.resume != nil && st.resume.b == b {
+			// back in the caller of an inlined helper: continue after the call instruction
+			start, pred = st.resume.idx, st.resume.pred
+			st.resume = nil
+			resumed = true
+		}
+		if !resumed && st.onPath[b] {
 			// loop re-entry: summarise what the back edge feeds into the header phis
 			if pred != nil {
 				st.po.backedge = map[string]symVal{}
@@ -240,13 +269,13 @@ func (e *explorer) walk(st *exState, b, pred *ssa.BasicBlock) {
 			e.finish(st, "loop", token.NoPos)
 			return
 		}
-		if e.stop != nil && pred != nil && e.stop(b) {
+		if !resumed && e.stop != nil && pred != nil && len(st.frames) == 0 && e.stop(b) {
 			e.finish(st, "stop", token.NoPos)
 			return
 		}
 		st.onPath[b] = true
 		// phis first, simultaneously
-		if pred != nil {
+		if pred != nil && !resumed {
 			idx := -1
 			for i, p := range b.Preds {
 				if p == pred {
@@ -266,8 +295,9 @@ func (e *explorer) walk(st *exState, b, pred *ssa.BasicBlock) {
 			}
 		}
 		var next *ssa.BasicBlock
-		for _, in := range b.Instrs {
-			switch in := in.(type) {
+		inlined := false
+		for ii := start; ii < len(b.Instrs) && !inlined; ii++ {
+			switch in := b.Instrs[ii].(type) {
 			case *ssa.Phi:
 				if pred == nil {
 					st.env[in] = symVal{expr: in.Comment}
@@ -319,6 +349,35 @@ func (e *explorer) walk(st *exState, b, pred *ssa.BasicBlock) {
 			case *ssa.Jump:
 				next = b.Succs[0]
 			case *ssa.Return:
+				if n := len(st.frames); n > 0 {
+					// an inlined helper returns: bind its result(s) and continue in the caller
+					fr := st.frames[n-1]
+					st.frames = st.frames[:n-1]
+					var rs []symVal
+					for _, r := range in.Results {
+						rs = append(rs, e.val(st, r))
+					}
+					if fr.call != nil {
+						switch len(rs) {
+						case 0:
+						case 1:
+							st.env[fr.call] = rs[0]
+						default:
+							if st.tuples == nil {
+								st.tuples = map[ssa.Value][]symVal{}
+							}
+							st.tuples[fr.call] = rs
+						}
+					}
+					// the helper's blocks may be entered again by a later call on this path
+					for _, hb := range in.Parent().Blocks {
+						delete(st.onPath, hb)
+					}
+					st.resume = &exFrame{b: fr.b, pred: fr.pred, idx: fr.idx}
+					next = fr.b
+					inlined = true
+					continue
+				}
 				for _, r := range in.Results {
 					st.po.ret = append(st.po.ret, e.val(st, r))
 				}
@@ -334,6 +393,23 @@ func (e *explorer) walk(st *exState, b, pred *ssa.BasicBlock) {
 				st.mem[sr.addr] = sr.val
 				delete(st.dead, sr.addr)
 			case ssa.CallInstruction:
+				if g := in.Common().StaticCallee(); g != nil && len(st.frames) < 2 && e.c.freshHelper(g) {
+					// a helper the reference tree does not know (code extracted by the change under analysis) is read
+					// as if it were still inline
+					for k, p := range g.Params {
+						if k < len(in.Common().Args) {
+							st.env[p] = e.val(st, in.Common().Args[k])
+						}
+					}
+					var cv ssa.Value
+					if v, ok := in.(ssa.Value); ok {
+						cv = v
+					}
+					st.frames = append(st.frames, exFrame{b: b, pred: pred, idx: ii + 1, call: cv})
+					next = g.Blocks[0]
+					inlined = true
+					continue
+				}
 				cr := callRec{callee: calleeName(e.c, in), instr: in}
 				if cr.callee == "" {
 					cr.callee = "dyn:" + e.val(st, in.Common().Value).expr
@@ -357,6 +433,10 @@ func (e *explorer) walk(st *exState, b, pred *ssa.BasicBlock) {
 			e.finish(st, "stop", token.NoPos)
 			return
 		}
+		if inlined && st.resume == nil {
+			pred, b = nil, next // entering an inlined helper at its entry block
+			continue
+		}
 		pred, b = b, next
 	}
 }
@@ -366,6 +446,9 @@ func (e *explorer) val(st *exState, v ssa.Value) symVal {
 	case *ssa.Const:
 		return constSym(v)
 	case *ssa.Parameter:
+		if s, ok := st.env[v]; ok { // parameter of an inlined helper: the argument
+			return s
+		}
 		return e.atom(symVal{expr: e.cn(v.Name())})
 	case *ssa.FreeVar:
 		return e.atom(symVal{expr: e.cn(v.Name())})
@@ -618,6 +701,9 @@ func (e *explorer) eval(st *exState, v ssa.Value) symVal {
 	case *ssa.Index:
 		return e.atom(symVal{expr: e.val(st, v.X).expr + "[" + e.val(st, v.Index).expr + "]"})
 	case *ssa.Extract:
+		if rs, ok := st.tuples[v.Tuple]; ok && v.Index < len(rs) {
+			return rs[v.Index]
+		}
 		return e.atom(symVal{expr: fmt.Sprintf("%s#%d", e.val(st, v.Tuple).expr, v.Index)})
 	case *ssa.Alloc:
 		if v.Comment != "" {
